@@ -845,7 +845,12 @@ impl EventReader {
         accessor: &Accessor<'_>,
         tw: &mut WriteBuf<'_>,
     ) -> Result<bool, Error> {
-        if self.fabric_filtered && !Self::matches_fabric(&event, accessor) {
+        // A fabric-sensitive event is reported to its own fabric only, whatever the
+        // request's `fabricFiltered` flag says: that flag selects the entries of
+        // fabric-scoped *lists*, it does not open other fabrics' fabric-sensitive
+        // events to the requester (Matter Core spec, "Fabric-Sensitive Quality").
+        let _ = self.fabric_filtered;
+        if !Self::matches_fabric(&event, accessor) {
             return Ok(false);
         }
 
